@@ -61,6 +61,7 @@ def run(ck):
     lines, meta = [], []
     pairs = [(a, b) for a in range(11) for b in range(11)]
     jobs = pairs + [ck.rng.choice(pairs) for _ in range(60 if q else 3000)]
+    JOB = [0]
     for (src, tgt) in jobs:
         smin = min(m for m in (1, 2, 3, 4) if src in c07.SPEC_COMPAT[m])
         cur = ck.rng.choice([m for m in (1, 2, 3, 4) if src in c07.SPEC_COMPAT[m]])
@@ -93,9 +94,18 @@ def run(ck):
                 las.points.array["classification_flags"] &= 0xC7  # no overlap bit, scanner channel 0
             ck.count("fits:" + ",".join(keep))
             las.update_header()
+        wrapped = False
+        if n >= 3 and JOB[0] % 3 == 1:
+            # the source is a chunk of a larger cloud wrapped with the whole cloud's header (LasData(header, points[a:b])): the header
+            # counts more points than the object holds
+            lo = ck.rng.choice([0, 1])
+            las = laspy.LasData(las.header, las.points[lo:lo + 2].copy())
+            n, wrapped = 2, True
+            ck.count("source_is_a_chunk_under_the_whole_header")
+        JOB[0] += 1
         size_std = laspy.PointFormat(src).size
         raw = las.points.array.tobytes()
-        inp = {"kind": "convert", "src": src, "tgt": tgt, "cur_version": cur, "request": req, "n": n, "in_range": in_range,
+        inp = {"kind": "convert", "src": src, "tgt": tgt, "cur_version": cur, "request": req, "n": n, "in_range": in_range, "chunk_under_whole_header": wrapped,
                "extra": [(p.name, str(p.type), None if p.scales is None else p.scales.tolist(), None if p.offsets is None else p.offsets.tolist()) for p in params],
                "raw": raw.hex()[:600]}
         ck.case(("c12", src, tgt, cur, req, raw, str(inp["extra"])), nontrivial=n > 0)
